@@ -60,7 +60,7 @@ type c17Case struct {
 	Clean     string `json:"clean"` // never | always | mixed
 	Abrupt    bool   `json:"abrupt"`
 	Serialize bool   `json:"serializeConnectsPerId"`
-	Settle    bool   `json:"serializeAndSettlePerId"` // clean-session kinds: connects and closes of one id never overlap inside the broker
+	Settle    bool   `json:"oneConnectionPerIdAtATime"` // clean-session kinds: an id is reconnected only after the broker finished the teardown of its previous connection
 	KeepOpen  int    `json:"keepOpenPercent"`
 }
 
@@ -80,13 +80,13 @@ type c17Mon struct {
 	cs *c17Case
 	b  *Broker
 
-	mu          sync.Mutex
-	seq         int64
-	cur         map[string][]*c17Conn
+	mu         sync.Mutex
+	seq        int64
+	cur        map[string][]*c17Conn
 	cleanEnded map[string]bool
-	nextID      int
-	maxLive     int
-	history     []string
+	nextID     int
+	maxLive    int
+	history    []string
 
 	events  int64
 	aborted int32
@@ -452,7 +452,7 @@ func c17RunCase(r *kit.Run, cs *c17Case, seed int64) {
 	idLocks := make([]sync.Mutex, cs.Pool)
 	closeConn := func(x *c17Conn, how int) {
 		if cs.Settle {
-			idLocks[x.idx].Lock()
+			// the id lock has been held since before CONNECT: one connection per id at a time
 			c17CloseSettled(m, x, how)
 			idLocks[x.idx].Unlock()
 			return
@@ -484,7 +484,7 @@ func c17RunCase(r *kit.Run, cs *c17Case, seed int64) {
 					idLocks[k].Lock()
 				}
 				x, code, ok := c17Connect(m, addr, cid, clean)
-				if cs.Serialize {
+				if cs.Serialize && !(cs.Settle && ok && code == packets.Accepted) {
 					idLocks[k].Unlock()
 				}
 				if !ok {
@@ -500,7 +500,7 @@ func c17RunCase(r *kit.Run, cs *c17Case, seed int64) {
 					continue
 				}
 				acc++
-				if arng.Intn(100) < cs.KeepOpen {
+				if !cs.Settle && arng.Intn(100) < cs.KeepOpen {
 					keptMu.Lock()
 					kept = append(kept, x) // stays open: a target for takeovers, closed at the end
 					keptMu.Unlock()
@@ -621,9 +621,9 @@ func TestVerif_C17_MQTTConnCap(t *testing.T) {
 	r := kit.Start(t, "C17")
 	defer r.Finish()
 	r.Rule("one real Broker per case (maxAllowedConnection = cap in {1,2,3,4,6,8}, loopback port) and max(4, 3 x cap) raw MQTT clients, each 3-6 rounds: CONNECT with an id from a pool of cap..2cap ids (so ids collide: takeovers of open connections, also at the cap), clean / non-clean / mixed sessions, connects of one id serialized or free-running, then DISCONNECT / plain close / TCP reset / stay open as a takeover target; some kinds add clients that reset the connection right after CONNECT (unique ids); oracle at every accepted CONNACK: connected clients (accepted, not closed, not superseded) <= cap and len(Broker.clients) <= cap under the broker lock; every refusal carries 'server unavailable'; at the final quiescent point every slot has come back (exactly cap fresh clients accepted, next refused); distinct = (kind, cap, pool, max connected)")
-	r.Assume("in the kinds with clean sessions the connects and closes of ONE client id are serialized and a close waits for the broker's own close of the socket (an overlapping reconnect can crash the process: double close of Session.done, outside this property); ids still collide, are taken over while open and all ids run concurrently")
+	r.Assume("in the kinds with clean sessions an id has one connection at a time and is reconnected only after the broker closed the previous socket (a connect that overlaps the teardown of an older connection of the same id - also a takeover right after the CONNACK - can crash the process by a double close of Session.done, a defect outside this property); takeovers of open connections are exercised in the non-clean kinds; different ids always run concurrently")
 	r.Assume("keepalive 0 (the broker never times a client out); a client id whose concurrent connects overlap is counted only while all overlapping connections are open; clients that reset before reading CONNACK use ids nobody else uses")
-	n := r.N(90, 3000)
+	n := r.N(150, 6000)
 	for i := 0; i < n; i++ {
 		if !r.Mine(i) {
 			continue
